@@ -15,8 +15,11 @@
    the node's retry / default policy prescribes (the relation rr, whose closed form is C12's) for its body applied to the
    keyword arguments computed from the final results of its declared inputs; hence two schedules return the same value and store
    the same results. What kind F does NOT give: the identification of that prescribed value with Spec/Dataflow.eval_output (it
-   needs the builder's correctness, C15), and the error outcomes (C05). Outside plain programs and the catalogue the property is
-   decided on the implementation by the oracle against the extracted reference and by the correspondence check. *)
+   needs the builder's correctness, C15), and the error outcomes (C05).
+   Kind G (ALL programs, all schedules, event managers that do not raise; Proofs/StoreAll.v): run returns nothing that no node
+   produced -- a value returned by run was stored as the output node's result (C01_returned_value_was_stored_for_the_output_node),
+   every result in the storage was put there by a logged store operation.  Outside plain programs and the catalogue the rest of
+   the property is decided on the implementation by the oracle against the extracted reference and by the correspondence check. *)
 From MLPE Require Import Engine.Run Spec.Dataflow Proofs.ExecLemmas Explore.StateEq Explore.Erase Explore.Explorer Explore.Safe
      Catalogue.Programs Catalogue.Certified Proofs.CertLemmas.
 
@@ -74,6 +77,16 @@ Example C01_premises_satisfiable :
                                              AGate (GBody 3 0); AQuiesce]) = Some (TDone (SVal v)).
 Proof. split; [in_catalogue|]. eexists. vm_compute. reflexivity. Qed.
 
+
+(* ---- kind G: ALL programs, ALL schedules, event managers that do not raise ---------------------------------------------------- *)
+From MLPE Require Import Proofs.StoreAll.
+
+Theorem C01_returned_value_was_stored_for_the_output_node :
+  forall P, (forall m ev n k, p_mgr_fault P m ev n k = false) ->
+  forall st v, reachable P st -> main_state st = Some (TDone (SVal v)) ->
+    In (OSetResult (b_output (build (p_decls P) (p_inp P) (p_out P))) v) (st_trace st).
+Proof. exact returned_value_is_the_stored_result_of_the_output_all_programs. Qed.
+Print Assumptions C01_returned_value_was_stored_for_the_output_node.
 
 (* ---- kind F: ALL plain programs, ALL schedules ---------------------------------------------------------------------------------- *)
 From MLPE Require Import Proofs.PlainWorld Proofs.PlainLive Proofs.PlainCore Proofs.PlainDeadlock Proofs.PlainArgs Proofs.PlainValues Proofs.PlainOutcome Proofs.Micro.
